@@ -28,6 +28,9 @@ pub struct HcCase {
     /// timeout does
     #[serde(default)]
     pub slow_ms: u64,
+    /// builder call order (gen::apply_in_order)
+    #[serde(default)]
+    pub setter_order: u8,
     /// after each round: (use get_usable, number of calls)
     pub bursts: Vec<(bool, u8)>,
 }
@@ -59,10 +62,10 @@ fn case_strategy(tier: Tier) -> BoxedStrategy<HcCase> {
             1 => prop::collection::vec(prop::collection::vec(result, 5..=max_checks), 6..=9),
         ],
         prop::collection::vec((any::<bool>(), 1u8..=9), 1..=max_checks),
-        (1u64..=70, prop::bool::weighted(0.15)),
+        (1u64..=70, prop::bool::weighted(0.15), prop_oneof![1 => Just(0u8), 1 => 0u8..12]),
     )
         .prop_map(
-            |(failure_threshold, success_threshold, interval, timeout, initial_delay, strategy, mut scripts, bursts, (slow_ms, all_slow))| {
+            |(failure_threshold, success_threshold, interval, timeout, initial_delay, strategy, mut scripts, bursts, (slow_ms, all_slow, setter_order))| {
                 if all_slow {
                     // every check of every resource takes `slow_ms` (still below the timeout)
                     for s in scripts.iter_mut() {
@@ -85,6 +88,7 @@ fn case_strategy(tier: Tier) -> BoxedStrategy<HcCase> {
                 scripts,
                 bursts,
                 slow_ms,
+                setter_order,
                 }
             },
         )
@@ -228,14 +232,25 @@ async fn interp(case: &HcCase) -> Verdict {
             }
         })),
     };
-    let mut b = HealthCheckWrapper::<usize, Checker>::builder()
-        .with_checker(checker)
-        .with_interval(Duration::from_millis(case.interval))
-        .with_timeout(Duration::from_millis(case.timeout))
-        .with_initial_delay(Duration::from_millis(case.initial_delay))
-        .with_failure_threshold(case.failure_threshold)
-        .with_success_threshold(case.success_threshold)
-        .with_selection_strategy(strategy);
+    let (iv, to, idl, ft, st) = (
+        case.interval,
+        case.timeout,
+        case.initial_delay,
+        case.failure_threshold,
+        case.success_threshold,
+    );
+    let mut b = crate::gen::apply_in_order(
+        HealthCheckWrapper::<usize, Checker>::builder().with_checker(checker),
+        vec![
+            Box::new(move |b| b.with_interval(Duration::from_millis(iv))),
+            Box::new(move |b| b.with_timeout(Duration::from_millis(to))),
+            Box::new(move |b| b.with_initial_delay(Duration::from_millis(idl))),
+            Box::new(move |b| b.with_failure_threshold(ft)),
+            Box::new(move |b| b.with_success_threshold(st)),
+            Box::new(move |b| b.with_selection_strategy(strategy)),
+        ],
+        case.setter_order,
+    );
     for r in 0..n {
         b = b.with_context(r, format!("res{r}"));
     }
